@@ -103,6 +103,17 @@ def rule_renaming(ctx):
                 none_ = render(arms["None"]).replace(" ", "") if "None" in arms else None
                 ok = scr == "env.get_current_version(%s)" % tgt and fmt_ok and none_ in ("%s.to_string()" % tgt, "%s.clone()" % tgt, tgt)
                 ctx.check(R, "%s/rename[%s]" % (fname, tgt), ok, "%s = match %s { %s }" % (tgt, scr, {k: render(v) for k, v in arms.items()}), site(UV, a))
+            elif a["r"]["k"] == "If" and a["r"]["cond"]["k"] == "Let" and a["r"].get("else") is not None:
+                c_ = a["r"]["cond"]
+                mm_ = re.fullmatch(r"Some\((\w+)\)", render(c_["pat"]).replace(" ", ""))
+                scr = render(strip(c_["e"])).replace(" ", "")
+                if not mm_ or scr != "env.get_current_version(%s)" % tgt:
+                    continue
+                sites += 1
+                th = strip(block_tail(a["r"]["then"]) if a["r"]["then"]["k"] == "Block" and block_tail(a["r"]["then"]) is not None else a["r"]["then"])
+                el = strip(block_tail(a["r"]["else"]) if a["r"]["else"]["k"] == "Block" and block_tail(a["r"]["else"]) is not None else a["r"]["else"])
+                ok = fmt_of(th, tgt, mm_.group(1)) and render(el).replace(" ", "") in ("%s.to_string()" % tgt, "%s.clone()" % tgt, tgt)
+                ctx.check(R, "%s/rename[%s]" % (fname, tgt), ok, "%s = if let Some(%s) = %s { %s } else { %s }" % (tgt, mm_.group(1), scr, render(th)[:60], render(el)[:40]), site(UV, a))
             elif a["r"]["k"] == "Macro":
                 cs = conditions_to(fn["body"], a) or []
                 vbs = [re.fullmatch(r"Some\((\w+)\)", render(c[1]).replace(" ", "")) for c in cs if c[0] == "iflet" and c[3] and render(strip(c[2])).replace(" ", "") == "env.get_current_version(%s)" % tgt]
